@@ -473,6 +473,13 @@ def expand(template_path, repo, vacuity=False):
             i += 1
             continue
         if d.startswith("FN"):
+            # attributes written in the template right in front of the directive (e.g. loop_isolation(false)) belong
+            # to the function: the vacuity / probe copy must carry them too
+            fn_attrs = []
+            q = i - 1
+            while q >= 0 and tlines[q].strip().startswith("#[verifier::"):
+                fn_attrs.insert(0, tlines[q].strip())
+                q -= 1
             parts = [p.strip() for p in d[2:].split("|")]
             rel, scope, name = parts[0], parts[1], parts[2]
             opts = dict(p.split("=", 1) for p in parts[3:] if "=" in p)
@@ -521,6 +528,8 @@ def expand(template_path, repo, vacuity=False):
                 # vacuity probe: a copy of the function (calling the *real* callees) with `ensures false`
                 vopts = dict(opts)
                 vopts["as"] = opts.get("as", name) + "__vac"
+                if fn_attrs:
+                    unit.segs.append(Seg("\n".join(fn_attrs) + "\n", "template", {"tline": 0}))
                 _emit_fn(unit, repo, rel, scope, name, vopts, flags + ["vac_copy"], contract, directives, vacuity,
                          template_path)
             continue
